@@ -273,7 +273,12 @@ def run(ctx, rep):
     co = prog.own_method("Blotter", "complete_order")
     from sa.kinds import sbody
     body = [utext(s) for s in sbody(co.node.body)]
-    rep.check(body == ["self._live_orders.remove(%s)" % co.params[1]], "R2",
+    cfgco = ctx.cfg(co)
+    rm_ = [n_ for n_, c_ in node_calls(cfgco, "remove") if utext(c_) == "self._live_orders.remove(%s)" % co.params[1]]
+    from sa.kinds import get_effects as _ge
+    oth_ = [d_ for n_, d_ in _ge(ctx).own_effects(co, co.node.body) if "self._live_orders.remove" not in d_ and "remove" not in d_]
+    rep.check(body == ["self._live_orders.remove(%s)" % co.params[1]] or (
+        len(rm_) == 1 and cfgco.unconditional(rm_[0].id) and not oth_), "R2",
               key(co, None, "complete_order removes exactly that order from the live list"), co, None, str(body))
 
     # ------------------------------------------------------------------ R3 insertion sites
